@@ -38,6 +38,17 @@ STRENGTHENED = {
     "C11-c2": "new clause: the same authorizer asked a second time, and a clone taken after the first answer, give the first answer",
     "C16-c1": "the Byzantine re-declaration of versions (absent, 0..8) is also applied to the token's last block inside an authorizer snapshot (Authorizer::from_raw_snapshot must refuse before any evaluation work)",
     "C19-c1": "Format errors are now compared by exact kind (name correspondence between error::Format variants and ErrorKind), and biscuit_from is fed structurally damaged tokens (signature of the wrong length, empty, key of the wrong size, truncation) next to the byte flip",
+    "C01-d1": "new adversary operator ProofReshape: the proof secret in another shape that names the same key (followed by the public key - the 64-byte keypair form -, with a leading or a trailing zero byte)",
+    "C01-d2": "same operator (ProofReshape with a leading zero byte, on tokens whose last next key is secp256r1)",
+    "C02-d2": "new C02 clause: every block of a token the API built can be read back (print_block_source, block_version) and an authorizer can be built for it - two decode paths that both fail to read a block used to count as agreeing",
+    "C08-d2": "new adversary operator KeyAlgTag (algorithm tag of a next key or external key outside the enumeration), and the sweep now also tells C08 when an accepted variant of a sealed token is unreadable for the reference decoder (it was only told when the decoded blocks differed)",
+    "C09-d1": "new Datalog source shape: a `trusting <algorithm>/<hex>` clause whose key has the right size but is not a point of the curve (searched at run time with PublicKey::from_bytes), for every source entry point",
+    "C10-d2": "the budget engine builds its authorizer on three routes (directly; from a builder saved and restored first, whose snapshot carries the limits; built, saved before evaluation, restored)",
+    "C12-d1": "generator: one string of the specification's default symbol table (all 28 are candidates) joins the per-run string vocabulary in half of the runs",
+    "C12-d2": "C12 runs the seal replica over an application base symbol table as well (the value seal() returns and the bytes read back with from_with_symbols mean what the token meant)",
+    "C13-d2": "the crash-point lifecycle of C13 is also run on the authorizer without any token (build_unauthenticated), queries and query_all included",
+    "C15-d2": "new signature-level operator: a DER ECDSA signature re-encoded as fixed-size r || s",
+    "C19-d2": "Op::From can load the *sealed* serialization of a token, followed by sealed size / sealed serialization / serialization / append on that handle; the model expects the Rust refusal (AlreadySealed, AppendOnSealed), nothing announced and nothing written. Harness: the children that attribute a death to a prefix of the history had no watchdog (a corrupted heap left one stuck for hours); they are now killed after 20 s, and a batch stops after 16 stalls",
     "C19-b2": "new operation FromForeign: tokens minted by another party through the Rust API (text holding a NUL, third-party block, 70 kB strings, 3.3 values) loaded with biscuit_from and then printed, inspected, authorized, with the failed-check accessors read",
 }
 
@@ -108,7 +119,7 @@ with open("/verif/seeded/RESULTS.md", "w") as f:
     f.write("Each row is one source change written by an independent sub-agent (given only the property text),\n")
     f.write("confirmed in a scratch worktree (suite passes with it, demonstration fails with it and passes without),\n")
     f.write("then applied to /repo for one run of the quick check(s) and reverted. `exit 1` = caught.\n")
-    f.write("`<property>-<n>` is the first round, `<property>-b<n>` the second and `<property>-c<n>` the third (each told the titles of the earlier ones, to get a different kind).\n\n")
+    f.write("`<property>-<n>` is the first round, `<property>-b<n>` the second, `<property>-c<n>` the third and `<property>-d<n>` the fourth (each told the titles of the earlier ones, to get a different kind).\n\n")
     f.write("| seeded change | what it is | caught by (quick tier) | last evaluation | missed at first? |\n|---|---|---|---|---|\n")
     for name, prop, title, caught, entry in rows:
         res = ", ".join(f"{p}: exit {d['exit']}" for p, d in sorted(entry.items()))
